@@ -714,18 +714,33 @@ func c15groupRemotes() *c15group {
 
 // c15groupLongLogs starts from refs that already carry long reflogs (17 and 9 entries: more than one
 // and exactly one entry beyond any 8-entry read window), then renames / copies / deletes / updates them.
-func c15groupLongLogs() *c15group {
+func c15groupLongLogs() *c15group { return c15groupLongLogsN(17, 9, nil) }
+
+// logs one entry beyond, and one entry beyond twice, a read window of 64 entries (and of any smaller power of two)
+func c15groupLongerLogs(be *c15backend) *c15group { return c15groupLongLogsN(129, 65, be) }
+
+func c15groupLongLogsN(nA, nB int, be *c15backend) *c15group {
 	g := &c15group{
 		names:    []string{"heads/a", "heads/a_b", "heads/axb", "heads/a%", "heads/ab"},
 		prefixes: []string{"", "heads/", "heads/a", "heads/a_"},
 	}
 	vals := [][]byte{c15v1, c15v2}
 	tags := []string{"v1", "v2"}
-	for i := 0; i < 17; i++ {
+	g.backend = be
+	for i := 0; i < nA; i++ {
 		g.prelude = append(g.prelude, c15saveRefOp("heads/a_b", vals[i%2], tags[i%2]))
 	}
-	for i := 0; i < 9; i++ {
+	for i := 0; i < nB; i++ {
 		g.prelude = append(g.prelude, c15saveRefOp("heads/a", vals[i%2], tags[i%2]))
+	}
+	if be != nil && be.fs {
+		// the file store writes the entry it is handed: logged updates only through ref.SaveRef
+		g.prefixes = []string{"", "heads/"}
+		g.ops = append(g.ops, c15saveRefOp("heads/a_b", c15v2, "v2"), c15saveRefOp("heads/a", c15v2, "v2"),
+			c15deleteOp("heads/a_b"), c15deleteOp("heads/a"),
+			c15renameOp("heads/a_b", "heads/axb"), c15renameOp("heads/a", "heads/a%"),
+			c15copyOp("heads/a_b", "heads/a%"), c15copyOp("heads/a", "heads/ab"), c15setOp("heads/a_b", c15v1, "v1"))
+		return g
 	}
 	g.ops = append(g.ops, c15saveRefOp("heads/a_b", c15v2, "v2"), c15saveRefOp("heads/a", c15v2, "v2"), c15setWithLogOp("heads/a_b", c15v1, "v1"),
 		c15deleteOp("heads/a_b"), c15deleteOp("heads/a"),
@@ -821,8 +836,10 @@ func init() {
 			c15harness("bfs-sql-heads", c15groupHeads(), map[string]int{"quick": 4, "thorough": 6}),
 			c15harness("bfs-sql-remotes", c15groupRemotes(), map[string]int{"quick": 4, "thorough": 6}),
 			c15harness("bfs-sql-long-logs", c15groupLongLogs(), map[string]int{"quick": 3, "thorough": 5}),
-			c15harness("bfs-fs", c15groupFS(), map[string]int{"quick": 3, "thorough": 5}),
-			c15harness("bfs-fs-long-logs", c15groupFSLongLogs(), map[string]int{"quick": 3, "thorough": 5}),
+			c15harness("bfs-sql-longer-logs", c15groupLongerLogs(nil), map[string]int{"quick": 3, "thorough": 5}),
+			c15harness("bfs-fs-longer-logs", c15groupLongerLogs(c15fsBackend), map[string]int{"quick": 3, "thorough": 5}),
+			c15harness("bfs-fs", c15groupFS(), map[string]int{"quick": 4, "thorough": 6}),
+			c15harness("bfs-fs-long-logs", c15groupFSLongLogs(), map[string]int{"quick": 4, "thorough": 6}),
 		},
 	})
 }
